@@ -815,10 +815,17 @@ func c12SE(rr *rand.Rand, depth int, wantVec bool) seNode {
 		e := c12SE(rr, depth-1, false)
 		return seNode{text: "vector(" + e.text + ")", json: map[string]any{"k": "vector", "e": e.json}, isVec: true, closed: e.closed}
 	}
-	switch rr.Intn(6) {
+	switch rr.Intn(7) {
 	case 0:
 		e := c12SE(rr, depth-1, true)
 		return seNode{text: "-(" + e.text + ")", json: map[string]any{"k": "neg", "e": e.json}, isVec: true, closed: e.closed}
+	case 6:
+		// an aggregation without grouping: one that returns the value of a single sample, one that counts
+		e := c12SE(rr, depth-1, true)
+		if rr.Intn(3) == 0 {
+			return seNode{text: "count(" + e.text + ")", json: map[string]any{"k": "agg", "keeps": false, "e": e.json}, isVec: true, closed: e.closed}
+		}
+		return seNode{text: hx.Pick(rr, []string{"sum", "min", "max", "avg"}) + "(" + e.text + ")", json: map[string]any{"k": "agg", "keeps": true, "e": e.json}, isVec: true, closed: e.closed}
 	case 1:
 		// a function of a vector: one that keeps the values it is given, one that does not (fix 5cb81d1)
 		e := c12SE(rr, depth-1, true)
@@ -883,6 +890,9 @@ func c12Static(r *hx.Run) {
 	// the property on this fragment, observed: a static verdict means the query returns nothing (known: bool)
 	if s0.IsDead && len(ls) > 0 {
 		class := "dead-operand-contributes:static-comparison" + lfBool("static-comparison", e.text)
+		if strings.Contains(e.text, "count(") && !strings.Contains(class, "value-changing-aggregation-in-query") {
+			class += ":value-changing-aggregation-in-query"
+		}
 		if (strings.Contains(e.text, "abs(") || strings.Contains(e.text, "m1")) && !strings.Contains(class, "constant-through-vector-matching") {
 			// a known number next to an unknown one survives a vector-vector operation (recorded finding; the model's
 			// static_stale_through_join_not_sound): only these expressions have unknown numbers
